@@ -15,7 +15,7 @@ where
         usize::try_from(n).map_err(|e| io::Error::new(io::ErrorKind::InvalidData, e))
     })?;
 
-    let mut reference_sequences = ReferenceSequences::with_capacity(n_ref);
+    let mut reference_sequences = ReferenceSequences::new();
 
     for _ in 0..n_ref {
         let (name, reference_sequence) = read_reference_sequence(reader)?;
@@ -33,6 +33,23 @@ mod tests {
     use noodles_sam::header::record::value::{Map, map::ReferenceSequence};
 
     use super::*;
+
+    #[test]
+    fn test_read_reference_sequences_with_an_unsatisfiable_count() {
+        let data = [
+            0xff, 0xff, 0xff, 0xff, // n_ref = 4294967295
+            0x04, 0x00, 0x00, 0x00, // ref[0].l_name = 4
+            0x73, 0x71, 0x30, 0x00, // ref[0].name = "sq0\x00"
+            0x08, 0x00, 0x00, 0x00, // ref[0].l_ref = 8
+        ];
+
+        let mut reader = &data[..];
+
+        assert!(matches!(
+            read_reference_sequences(&mut reader),
+            Err(e) if e.kind() == io::ErrorKind::UnexpectedEof
+        ));
+    }
 
     #[test]
     fn test_read_reference_sequences() -> Result<(), Box<dyn std::error::Error>> {
